@@ -1,13 +1,47 @@
-// Package c11 is the correspondence harness for property C11 (placeholder).
+// Package c11 is the correspondence harness for property C11 (the multiplexer fails stop).
 package c11
 
 import (
-	"errors"
+	"time"
 
+	"verifh/c10"
 	"verifh/internal/hx"
 	"verifh/internal/lineio"
 )
 
 func Run(o *hx.Opts, w *lineio.Writer) error {
-	return errors.New("C11 harness not implemented")
+	if c10.IsWorker() {
+		return c10.Worker(o, w, RunOne)
+	}
+	if o.Replay != "" {
+		jobs, err := c10.ReplayJobs(o.Replay)
+		if err != nil {
+			return err
+		}
+		return c10.RunIsolated("C11", o, w, jobs, 1, 60*time.Second)
+	}
+	mp, err := c10.MeasureMaxPayload()
+	if err != nil {
+		return err
+	}
+	var jobs []c10.Job
+	sizes := [3]int{5, 0, 3}
+	if o.Thorough() {
+		sizes = [3]int{40, 0, 50}
+	}
+	jobs = append(jobs, c10.TruncationSweep(mp, sizes)...)
+	jobs = append(jobs, c10.OverflowSweep(mp, []int{1, 2, 3, 4, 7})...)
+	jobs = append(jobs, c10.ListenerScripts(mp)...)
+	r := o.Rand(11)
+	for i := 0; i < o.N(150, 3000); i++ {
+		jobs = append(jobs, c10.RandomScript(r, mp, i))
+	}
+	if err := c10.RunIsolated("C11", o, w, jobs, 40, 20*time.Second); err != nil {
+		return err
+	}
+	var chaos []c10.Job
+	for i := 0; i < o.N(60, 800); i++ {
+		chaos = append(chaos, RandomChaos(r, mp, i))
+	}
+	return c10.RunIsolated("C11", o, w, chaos, 10, 30*time.Second)
 }
